@@ -247,7 +247,9 @@ def finish(doc):
     if rids:
         doc['defs'] = [ref_def(r) for r in rids]
     if xdefs:
-        doc['xdefs'] = ['[#%s]: Author %s. *Book %s*. 2020.' % (i, i, i) if k == 'cite' else '[?%s]: definition of %s' % (i, i) for k, i in xdefs]
+        # a definition may itself call a footnote that the body uses too (a re-use, never a first call: see the C10 known finding)
+        tail = (' see[^%s]' % used[-1]) if used else ''
+        doc['xdefs'] = ['[#%s]: Author %s. *Book %s*. 2020.' % (i, i, i) if k == 'cite' else '[?%s]: definition of %s%s' % (i, i, tail) for k, i in xdefs]
     return doc
 
 
